@@ -705,46 +705,54 @@ class SynthDef(metaclass=MetaSynthDef):
             for item in self._children:
                 item._write_def(file)
 
-            frw.write_i16(file, len(self._variants))
-            if len(self._variants) > 0:
-                allcns_map = dict()
-                for cn in allcns_tmp:
-                    allcns_map[cn.name] = cn
-
-                for varname, pairs in self._variants.items():
-                    varname = self._name + '.' + varname
-                    if len(varname) > 32:
-                        _logger.warning(
-                            f"variant '{varname}' name too log, "
-                            "not writing more variants")
-                        return False
-
-                    varcontrols = self._controls[:]
-                    for cname, values in pairs.items():
-                        if allcns_map.keys().isdisjoint([cname]):
-                            _logger.warning(
-                                f"control '{cname}' of variant '{varname}' "
-                                "not found, not writing more variants")
-                            return False
-
-                        cn = allcns_map[cname]
-                        values = utl.as_list(values)
-                        if len(values) > len(utl.as_list(cn.default_value)):
-                            _logger.warning(
-                                f"control: '{cname}' of variant: '{varname}' "
-                                "size mismatch, not writing more variants")
-                            return False
-
-                        index = cn.index
-                        for i, val in enumerate(values):
-                            varcontrols[index + i] = val
-
-                    frw.write_pascal_str(file, varname)
-                    for item in varcontrols:
-                        frw.write_f32(file, item)
-            return True
+            # The number of variants must match the variants written.
+            variants = self._valid_variants(allcns_tmp)
+            frw.write_i16(file, len(variants))
+            for varname, varcontrols in variants:
+                frw.write_pascal_str(file, varname)
+                for item in varcontrols:
+                    frw.write_f32(file, item)
+            return len(variants) == len(self._variants)
         except Exception as e:
             raise Exception('SynthDef: could not write def') from e
+
+    def _valid_variants(self, allcns):
+        # Returns [(name, control values), ...] up to the first invalid one.
+        ret = []
+        allcns_map = dict()
+        for cn in allcns:
+            allcns_map[cn.name] = cn
+
+        for varname, pairs in self._variants.items():
+            varname = self._name + '.' + varname
+            if len(varname) > 32:
+                _logger.warning(
+                    f"variant '{varname}' name too log, "
+                    "not writing more variants")
+                return ret
+
+            varcontrols = self._controls[:]
+            for cname, values in pairs.items():
+                if allcns_map.keys().isdisjoint([cname]):
+                    _logger.warning(
+                        f"control '{cname}' of variant '{varname}' "
+                        "not found, not writing more variants")
+                    return ret
+
+                cn = allcns_map[cname]
+                values = utl.as_list(values)
+                if len(values) > len(utl.as_list(cn.default_value)):
+                    _logger.warning(
+                        f"control: '{cname}' of variant: '{varname}' "
+                        "size mismatch, not writing more variants")
+                    return ret
+
+                index = cn.index
+                for i, val in enumerate(values):
+                    varcontrols[index + i] = val
+
+            ret.append((varname, varcontrols))
+        return ret
 
     def _write_constants(self, file):
         size = len(self._constants)
